@@ -55,7 +55,7 @@ CHECKS = {
    ref="DESIGN.md §6 C11", note="trusted base: list model and reference codec in harness (written from the standard), rapid; known finding KF-C11-serializer is attributed only when the tree-style serializer explains the entire result"),
  "C12": dict(
    technique="stateful property-based testing (rapid): query/list consistency invariants I1-I4 after every step of generated interleavings of list mutations, SetSearch and other setters over several live handles",
-   text="Generated interleavings of SearchParams mutations through several handles (obtained before and after SetSearch), SetSearch calls and other setters; after every step the URL's Query/Search/Href query part equal the list serialization (after list mutations), every handle equals the form-urlencoded parse of the new query (after SetSearch), and other setters leave both alone; list operations on a Clone of the URL or on the result of resolving against it leave the URL and every live handle alone. Lists of up to 40 parameters; the names a replaced list held stay among the names looked up.",
+   text="Generated interleavings of SearchParams mutations through several handles (obtained before and after SetSearch), SetSearch calls and other setters; after every step the URL's Query/Search/Href query part equal the list serialization (after list mutations), every handle equals the form-urlencoded parse of the new query (after SetSearch), and other setters leave both alone; list operations on a Clone of the URL or on the result of resolving against it leave the URL and every live handle alone. Lists of up to 40 parameters; the names a replaced list held stay among the names looked up. A quarter of the directly parsed histories are blind: nothing is read between the steps and Query() and all handles are compared with the reference model's query and the list model after the last step only.",
    ref="DESIGN.md §6 C12", note="trusted base: invariants in harness/props/c12.go, reference form-urlencoded parser, rapid"),
  "C13": dict(
    technique="stateful property-based testing (rapid) over two aliased values: snapshot-unchanged invariant for the untouched side and isolated-twin equivalence for the operated side",
